@@ -13,14 +13,18 @@
        (Conc/LockReduction.v); this is the step from what the lock table says about env/*.go to (2),
        and the reason the schedule exploration of ./check C13 may interleave at lock acquisitions only;
    (3) a copy taken atomically is a snapshot: it equals the scope's content at one point of the
-       sequential order [copy_is_a_snapshot].
+       sequential order [copy_is_a_snapshot];
+   (4) no deadlock: with writer-preferring reader-writer locks, one per scope, threads made of sections
+       (one lock at a time) keep every lock exclusive and can always move until all are done, in every
+       schedule [sectioned_operations_never_deadlock]; a read lock asked for twice by one thread deadlocks
+       with one writer [a_read_lock_taken_twice_can_deadlock] (Conc/RWLockProgress.v).
    What is checked rather than proved: that the Go methods are the model's steps when run under
    every schedule of their lock acquisitions (./check C13: controlled scheduler over the real env
    package, all interleavings of 2-3 goroutines, each outcome fed to (1)); absence of data races
    (race detector stress); absence of deadlock (the scheduler sees every acquisition). *)
 From Coq Require Import String List Bool Arith.
 From Anko Require Import Base.Assoc Env.EnvModel Env.EnvCases Conc.Lin Conc.EnvConc Conc.LockTable.
-From Anko Require Conc.LockReduction Conc.EnvLocks.
+From Anko Require Conc.LockReduction Conc.EnvLocks Conc.RWLockProgress.
 Import ListNotations.
 
 Theorem linearizable_iff_sequential_order : forall h0 ts fin,
@@ -109,9 +113,32 @@ Proof.
   - cbn. repeat split; repeat constructor.
 Qed.
 
+(* Deadlock freedom.  sync.RWMutex gives a writer that has announced itself precedence over new readers; the
+   machine of Conc/RWLockProgress.v has one such lock per scope and threads running arbitrary acquire / release
+   sequences.  Threads made of sections (take one lock, release it, then the next - what the lock table's
+   [sections_ok] establishes for the methods of package env) keep the locks exclusive and never deadlock, in
+   every schedule; a thread that asks for a read lock it already holds can deadlock with one writer. *)
+Theorem sectioned_operations_never_deadlock :
+  forall progs ts, Forall RWLockProgress.sections progs -> RWLockProgress.run (RWLockProgress.start progs) ts ->
+    RWLockProgress.no_two_holders ts /\ ~ RWLockProgress.stuck ts.
+Proof. exact RWLockProgress.sectioned_programs_are_safe_and_live. Qed.
+
+Theorem some_thread_can_always_move :
+  forall ts, Forall RWLockProgress.disciplined ts -> RWLockProgress.finished ts \/ exists ts', RWLockProgress.step ts ts'.
+Proof. exact RWLockProgress.progress. Qed.
+
+Theorem a_read_lock_taken_twice_can_deadlock :
+  RWLockProgress.run (RWLockProgress.start [RWLockProgress.nested_reader; RWLockProgress.writer]) RWLockProgress.deadlocked
+  /\ RWLockProgress.stuck RWLockProgress.deadlocked.
+Proof. exact RWLockProgress.nested_read_lock_deadlocks. Qed.
+
+
 Print Assumptions linearizable_iff_sequential_order.
 Print Assumptions atomic_operations_linearize.
 Print Assumptions copy_is_a_snapshot.
 Print Assumptions lock_table_condition.
 Print Assumptions one_section_per_operation_makes_every_schedule_linearizable.
 Print Assumptions environment_operations_under_one_lock_linearize.
+Print Assumptions sectioned_operations_never_deadlock.
+Print Assumptions some_thread_can_always_move.
+Print Assumptions a_read_lock_taken_twice_can_deadlock.
